@@ -88,6 +88,7 @@ type ReadP struct {
 	Hold int  `json:"hold,omitempty"` // Gosched calls between creating the handle and reading
 	Key  int  `json:"key,omitempty"`  // get1: index of the key in the group
 	Wait bool `json:"wait,omitempty"` // efos: WaitForFileOnlySnapshot first
+	Rep  int  `json:"rep,omitempty"`  // repeat the read this many times (reader churn)
 }
 
 // MaintP is one op of a maintenance thread.
@@ -252,6 +253,10 @@ func genRead(t *rapid.T, p *Plan, label string) ReadP {
 	}
 	r.Rev = rapid.Bool().Draw(t, label+".rev")
 	r.Hold = rapid.SampledFrom([]int{0, 0, 1, 3, 10}).Draw(t, label+".hold")
+	if r.Kind != "efos" && rapid.IntRange(0, 7).Draw(t, label+".churn") == 0 {
+		r.Rep = rapid.SampledFrom([]int{10, 50, 200}).Draw(t, label+".rep")
+		r.Hold = 0
+	}
 	if r.Kind == "get1" {
 		r.Key = rapid.IntRange(0, len(p.Groups[r.G])-1).Draw(t, label+".key")
 	}
